@@ -1,5 +1,182 @@
-/- Line-protocol handler for C10 (stub until the model exists). -/
-import NoulithModel.Common
+/- Line-protocol handler for C10.
+
+Values are written in the canonical text of `vharness::canon` (ints, `f:<bits>`, `n/d`, `s:<hex>`,
+`b:<hex>`, `[a,b]`, `v[a,b]`, `stream[a,b]`, `null`) plus `rep(<v>)` and `cyc(<pos>,[a,b])` for the two
+infinite streams (both render as `stream-inf`, as the canonicaliser prints them).
+
+Requests (`-` = absent bound; an lvalue step is `i=<v>` or `r=<lo>;<hi>`):
+  idx <s> <i>            s[i]
+  idx2 <s> <i> <j>       s[i][j]
+  slice <s> <lo> <hi>    s[lo:hi]
+  a1 <name> <s>          first second third last tail butlast uncons unsnoc only
+  a2 <name> <s> <a>      !! index !? !% take drop
+  set <s> <v> <step>…    x := s; x<steps> = v; x
+  every <s> <v> <step>…  x := s; every x<steps> = v; x
+  addat <s> <i> <d>      x := s; x[i] += d; x
+  pop <s>                x := s; r := pop x; [r, x]
+  rmi <s> <i>            x := s; r := remove x[i]; [r, x]
+  rms <s> <lo> <hi>      x := s; r := remove x[lo:hi]; [r, x]
+  upd <s> <k> <v>        s |.. [k, v]
+Response: `<impl>\t<spec>`. -/
+import NoulithModel.Spec.PyIndex
+
 namespace Noulith.DriverC10
-def handle (_args : List String) : String := "bad-op"
+open Noulith Noulith.Index
+
+/-! rendering -/
+mutual
+def render : Val → String
+  | .null => "null"
+  | .int v => toString v
+  | .num t => t
+  | .str bs => "s:" ++ hexOfBytes bs
+  | .bytes bs => "b:" ++ hexOfBytes bs
+  | .list xs => "[" ++ renderList xs ++ "]"
+  | .vec xs => "v[" ++ renderList xs ++ "]"
+  | .stream xs => "stream[" ++ renderList xs ++ "]"
+  | .rep _ => "stream-inf"
+  | .cyc _ _ => "stream-inf"
+  | .other t => t
+def renderList : List Val → String
+  | [] => ""
+  | [x] => render x
+  | x :: y :: rest => render x ++ "," ++ renderList (y :: rest)
+end
+
+def renderPair (p : Val × Val) : String := "[" ++ render p.1 ++ "," ++ render p.2 ++ "]"
+
+/-! parsing -/
+def isAtomChar (c : Char) : Bool := !(c == ',' || c == '[' || c == ']' || c == '(' || c == ')')
+
+def atomOf (s : String) : Val :=
+  if s == "null" then .null
+  else if s.startsWith "s:" then
+    match unhex (s.drop 2).toString with
+    | some bs => .str bs
+    | none => .other s
+  else if s.startsWith "b:" then
+    match unhex (s.drop 2).toString with
+    | some bs => .bytes bs
+    | none => .other s
+  else if s.startsWith "f:" || s.startsWith "c:" then .num s
+  else match s.toInt? with
+    | some v => .int v
+    | none => if s.contains '/' then .num s else .other s
+
+mutual
+partial def parseVal (cs : List Char) : Option (Val × List Char) :=
+  match cs with
+  | '[' :: rest => (parseItems rest).map fun (xs, r) => (.list xs, r)
+  | 'v' :: '[' :: rest => (parseItems rest).map fun (xs, r) => (.vec xs, r)
+  | 's' :: 't' :: 'r' :: 'e' :: 'a' :: 'm' :: '[' :: rest =>
+    (parseItems rest).map fun (xs, r) => (.stream xs, r)
+  | 'r' :: 'e' :: 'p' :: '(' :: rest =>
+    match parseVal rest with
+    | some (x, ')' :: r) => some (.rep x, r)
+    | _ => none
+  | 'c' :: 'y' :: 'c' :: '(' :: rest =>
+    let digits := rest.takeWhile Char.isDigit
+    match rest.dropWhile Char.isDigit with
+    | ',' :: '[' :: r1 =>
+      match parseItems r1 with
+      | some (xs, ')' :: r) => some (.cyc xs (String.ofList digits).toNat!, r)
+      | _ => none
+    | _ => none
+  | _ =>
+    let a := cs.takeWhile isAtomChar
+    if a.isEmpty then none else some (atomOf (String.ofList a), cs.dropWhile isAtomChar)
+/-- items after an opening bracket, up to and including the closing one -/
+partial def parseItems (cs : List Char) : Option (List Val × List Char) :=
+  match cs with
+  | ']' :: rest => some ([], rest)
+  | _ =>
+    match parseVal cs with
+    | some (x, ',' :: rest) => (parseItems rest).map fun (xs, r) => (x :: xs, r)
+    | some (x, ']' :: rest) => some ([x], rest)
+    | _ => none
+end
+
+def val? (s : String) : Option Val :=
+  match parseVal s.toList with
+  | some (v, []) => some v
+  | _ => none
+
+/-- `-` is an absent bound -/
+def bound? (s : String) : Option (Option Val) :=
+  if s == "-" then some none else (val? s).map some
+
+def step? (s : String) : Option Ix :=
+  if s.startsWith "i=" then (val? (s.drop 2).toString).map Ix.index
+  else if s.startsWith "r=" then
+    match (s.drop 2).toString.splitOn ";" with
+    | [a, b] =>
+      match bound? a, bound? b with
+      | some lo, some hi => some (.slice lo hi)
+      | _, _ => none
+    | _ => none
+  else none
+
+def steps? : List String → Option (List Ix)
+  | [] => some []
+  | s :: rest =>
+    match step? s, steps? rest with
+    | some i, some is => some (i :: is)
+    | _, _ => none
+
+def both (i s : Out Val) : String := i.render render ++ "\t" ++ s.render render
+def bothP (i s : Out (Val × Val)) : String := i.render renderPair ++ "\t" ++ s.render renderPair
+
+def handle (args : List String) : String :=
+  match args with
+  | ["idx", s, i] =>
+    match val? s, val? i with
+    | some s, some i => both (Index.index s i) (PyIndex.index s i)
+    | _, _ => "bad-op"
+  | ["idx2", s, i, j] =>
+    match val? s, val? i, val? j with
+    | some s, some i, some j =>
+      both ((Index.index s i).bind fun e => Index.index e j) ((PyIndex.index s i).bind fun e => PyIndex.index e j)
+    | _, _, _ => "bad-op"
+  | ["slice", s, lo, hi] =>
+    match val? s, bound? lo, bound? hi with
+    | some s, some lo, some hi => both (Index.slice s lo hi) (PyIndex.slice s lo hi)
+    | _, _, _ => "bad-op"
+  | ["a1", name, s] =>
+    match val? s with
+    | some s => both (Index.accessor1 name s) (PyIndex.accessor1 name s)
+    | _ => "bad-op"
+  | ["a2", name, s, a] =>
+    match val? s, val? a with
+    | some s, some a => both (Index.accessor2 name s a) (PyIndex.accessor2 name s a)
+    | _, _ => "bad-op"
+  | "set" :: s :: v :: steps =>
+    match val? s, val? v, steps? steps with
+    | some s, some v, some ixs => both (Index.setIndex s ixs (some v) false) (PyIndex.setPath s ixs v false)
+    | _, _, _ => "bad-op"
+  | "every" :: s :: v :: steps =>
+    match val? s, val? v, steps? steps with
+    | some s, some v, some ixs => both (Index.setIndex s ixs (some v) true) (PyIndex.setPath s ixs v true)
+    | _, _, _ => "bad-op"
+  | ["addat", s, i, d] =>
+    match val? s, val? i, d.toInt? with
+    | some s, some i, some d => both (Index.opAssignAdd s i d) (PyIndex.addAt s i d)
+    | _, _, _ => "bad-op"
+  | ["pop", s] =>
+    match val? s with
+    | some s => bothP (Index.tryPop s) (PyIndex.pop s)
+    | _ => "bad-op"
+  | ["rmi", s, i] =>
+    match val? s, val? i with
+    | some s, some i => bothP (Index.tryRemoveIndex s i) (PyIndex.removeIndex s i)
+    | _, _ => "bad-op"
+  | ["rms", s, lo, hi] =>
+    match val? s, bound? lo, bound? hi with
+    | some s, some lo, some hi => bothP (Index.tryRemoveSlice s lo hi) (PyIndex.removeSlice s lo hi)
+    | _, _, _ => "bad-op"
+  | ["upd", s, k, v] =>
+    match val? s, val? k, val? v with
+    | some s, some k, some v => both (Index.updateAt s k v) (PyIndex.updateAt s k v)
+    | _, _, _ => "bad-op"
+  | _ => "bad-op"
+
 end Noulith.DriverC10
